@@ -550,6 +550,11 @@ def run(pid, tier, seed):
                     rep.violation("named-order:stdout", "%s %s: tied messages are not printed in the order the sources were named (differs at byte %d)"
                                   % (label, argv, first_diff(rr.out, want_m)), {"kind": "mixed-args", "argv": argv, "got": rr.out[:600].decode(errors="replace")})
 
+        # C01: accounting records in the layouts of other systems (shipped samples, re-timed): two files sharing their seconds
+        foreign_merges = 0
+        if pid == "C01":
+            from . import c08
+            foreign_merges = sum(f_["merges"] for f_ in c08.foreign_layouts(sc, rep, rng, tier, merge=True))
         # C01: the zone a timestamp without zone is READ in (--tz-offset) and the zone prepended datetimes are WRITTEN in
         # (-u / -l / -z) are two things: a source without zone information merged with one that states its offset, the two
         # options set apart, messages closer together than the zones are
@@ -647,7 +652,7 @@ def run(pid, tier, seed):
             "rule": "distinct = (ground-truth instants per source, schedule) pairs; non-trivial = >= 2 sources with at "
                     "least one equal instant inside or across sources",
             "samples": samples, "tlc_configs": details, "tlc_plans_followed": plan_followed, "tlc_plans_run": plan_total,
-            "source_sets": nsets, "closed_pipe_runs": epipe_runs, "mixed_kind_runs": mixed_runs, "wide_runs": wide_runs, "slow_source_runs": slow_runs, "directory_and_file_argument_runs": dir_runs, "read_zone_vs_written_zone_runs": zone_runs, "exhaustive": False,
+            "source_sets": nsets, "closed_pipe_runs": epipe_runs, "mixed_kind_runs": mixed_runs, "wide_runs": wide_runs, "slow_source_runs": slow_runs, "directory_and_file_argument_runs": dir_runs, "read_zone_vs_written_zone_runs": zone_runs, "foreign_layout_merges": foreign_merges, "exhaustive": False,
             "checker_cmd": "tlc -config <generated MC cfg> S4Run.tla ; tlc -workers 1 -config <trace cfg> TraceS4Run.tla",
         }
         rep.assumptions = [
